@@ -195,7 +195,7 @@ class VM:
         self._decl_seen = set()
         self.externals = {}
         self.family = {"python": "py", "javascript": "js", "typescript": "js", "java": "c", "c": "c", "go": "c",
-                       "php": "php"}.get(lang, "py")
+                       "php": "php", "csharp": "c"}.get(lang, "py")
         self._install_builtins()
         self.handlers = {
             "variable_decl": self.op_variable_decl, "parameter_decl": self.op_nop, "assign_stmt": self.op_assign,
@@ -220,6 +220,11 @@ class VM:
             self.handlers["expression_stmt"] = self.op_nop
         if "go-struct-type-decl" in self.switches:
             self.handlers["type_decl"] = self.op_go_type_decl
+        if "try-body-columns" in self.switches:
+            self.handlers["finally_stmt"] = self.op_block       # TypeScript wraps the finally statements in one finally_stmt row
+        if self.lang == "go":
+            # Go: `fallthrough` is the only way from the end of one switch clause into the next (see op_switch)
+            self.handlers["fallthrough_stmt"] = lambda u, r, f, sc: ("fallthrough", None)
 
     # ------------------------------------------------------------------ builtins
     def _install_builtins(self):
@@ -1186,6 +1191,14 @@ class VM:
         recv = self.val(frame, scope, row.get("receiver"), row)
         if self.family == "js" and isinstance(recv, list):
             items = list(range(len(recv)))           # JS for...in yields keys
+        elif self.lang == "go" and isinstance(recv, list):
+            # Go `for i := range xs` yields indexes; `for i, x := range xs` is lowered to a loop over a temporary that
+            # the body takes apart with array_read [0] / [1]: it yields (index, element) pairs
+            name = row.get("name")
+            if isinstance(name, str) and name.startswith("%"):
+                items = [[i, x] for i, x in enumerate(recv)]
+            else:
+                items = list(range(len(recv)))
         else:
             items = self.iter_values(recv, keys_for_records=True)
         return self._loop_over(unit, row, frame, scope, items)
@@ -1202,10 +1215,16 @@ class VM:
 
     def op_switch(self, unit, row, frame, scope):
         v = self.val(frame, scope, row.get("condition"), row)
-        rows = unit.blocks.get(_int(row.get("body")), []) if row.get("body") is not None else []
+        body_col = row.get("body")
+        if body_col is None and row.get("switch_body") is not None:
+            # the Go frontend names the clause list 'switch_body' (the analyses read 'body')
+            if "switch-body-column" not in self.switches:
+                raise VMOpaque("switch clauses in column 'switch_body' (the analyses read 'body')")
+            body_col = row.get("switch_body")
+        rows = unit.blocks.get(_int(body_col), []) if body_col is not None else []
         inner = Scope(scope, frame)
         matched = False
-        fallthrough = self.family in ("c", "js", "php")
+        fallthrough = self.family in ("c", "js", "php") and self.lang != "go"
         cases = [r for r in rows if r.get("operation") in ("case_stmt", "default_stmt")]
         others = [r for r in rows if r.get("operation") not in ("case_stmt", "default_stmt")]
         for r in others:
@@ -1236,6 +1255,9 @@ class VM:
                 if sig is not None:
                     if sig[0] == "break":
                         return None
+                    if sig[0] == "fallthrough" and not fallthrough:
+                        i += 1
+                        continue
                     return sig
             if not fallthrough:
                 self.note(frame, "no-fallthrough-case-end")
@@ -1254,6 +1276,11 @@ class VM:
     def op_try(self, unit, row, frame, scope):
         sig = None
         pending = None
+        if row.get("body") is None and (row.get("try_body") is not None or row.get("finally_body") is not None):
+            # the TypeScript frontend names the blocks 'try_body' / 'finally_body' (the analyses read 'body' / 'final_body')
+            if "try-body-columns" not in self.switches:
+                raise VMOpaque("try blocks in columns 'try_body'/'finally_body' (the analyses read 'body'/'final_body')")
+            row = dict(row, body=row.get("try_body"), final_body=row.get("finally_body"))
         try:
             if row.get("body") is not None:
                 sig = self.exec_block(unit, row.get("body"), frame, scope)
